@@ -230,6 +230,108 @@ theorem relay_complete_tx (L : Nat) (hL : 0 < L) (hlen : ∀ x, (H x).length = L
     simp [proofFor, List.getD_eq_getElem?_getD, hi]
   simp [hdata]
 
+/-- **Soundness (TxSearch with proofs).** In a relayed answer every listed transaction is non-nil,
+names a height the providers have, carries a proof whose root is that header's `DataHash`, its bytes
+are the proven bytes and hash to its hash label, and it is one of the transactions of the block
+under that header — or a collision is exhibited. (Which transactions are listed, `TotalCount`, the
+`Index` labels and the results are bound by no header.) -/
+theorem relay_sound_txSearch (L : Nat) (hL : 0 < L) (hlen : ∀ x, (H x).length = L) :
+    ∀ (results : List (Option ResultTx)) (lc lc' : LC), verifyTxSearch H lc results = (.ok, lc') →
+      lc'.chain = lc.chain ∧
+      ∀ x ∈ results, ∃ res t, x = some res ∧ lc.at? res.height = some t ∧
+        res.proof.rootHash = t.header.dataHash ∧ res.tx = res.proof.data ∧ H res.tx = res.hash ∧
+        (∀ txs, t.header.dataHash = txsHash H txs → res.tx ∈ txs ∨ Nonempty (Collision H)) := by
+  intro results
+  induction results with
+  | nil => intro lc lc' h; simp [verifyTxSearch] at h; subst h; simp
+  | cons x rest ih =>
+    intro lc lc' hacc
+    cases x with
+    | none => simp [verifyTxSearch] at hacc
+    | some res =>
+      simp only [verifyTxSearch] at hacc
+      split at hacc; · simp at hacc
+      split at hacc
+      · simp at hacc
+      · rename_i t lc1 hupd
+        obtain ⟨hchain, _, hat⟩ := updateTo_ok lc lc1 _ t hupd
+        split at hacc
+        all_goals try (simp at hacc; done)
+        rename_i u hval
+        split at hacc; · simp at hacc
+        rename_i hmm
+        obtain ⟨hc2, hrest⟩ := ih lc1 lc' hacc
+        have htx : res.proof.data = res.tx := by
+          rcases Decidable.em (res.proof.data = res.tx) with h | h
+          · exact h
+          · exact absurd (Or.inl h) hmm
+        have hh : H res.tx = res.hash := by
+          rcases Decidable.em (H res.tx = res.hash) with h | h
+          · exact h
+          · exact absurd (Or.inr h) hmm
+        refine ⟨by rw [hc2, hchain], ?_⟩
+        intro y hy
+        simp only [List.mem_cons] at hy
+        rcases hy with rfl | hy
+        · unfold TxProof.validate at hval
+          split at hval; · cases hval
+          rename_i hdh
+          split at hval; · cases hval
+          split at hval; · cases hval
+          split at hval
+          · rename_i u2 hver
+            have hroot : t.header.dataHash = res.proof.rootHash := by simpa using hdh
+            refine ⟨res, t, rfl, hat _ rfl, hroot.symm, htx.symm, hh, ?_⟩
+            intro txs htxs
+            rw [← hroot, htxs] at hver
+            unfold txsHash at hver
+            have hver' : verify H (root H (txs.map H)) (H res.proof.data) res.proof.proof = .ok () := by rw [hver]
+            rcases verify_inclusion_any H L hL hlen _ _ _ hver' with hm | hc
+            · rw [List.mem_map] at hm
+              obtain ⟨tx, hmem, heq⟩ := hm
+              by_cases hx : tx = res.proof.data
+              · left; rw [← htx, ← hx]; exact hmem
+              · right; exact ⟨⟨_, _, hx, heq⟩⟩
+            · right; exact hc
+          · cases hval
+        · obtain ⟨r', t', e1, e2, e3⟩ := hrest y hy
+          exact ⟨r', t', e1, by rw [← at?_of_chain_eq lc lc1 hchain]; exact e2, e3⟩
+
+/-- **Completeness (TxSearch with proofs).** What an honest node's `TxSearch` returns — for each hit the
+transaction, its hash and `Txs.Proof(index)` of the block at its height — is relayed, whatever the
+hits, their order and the light client's store. -/
+theorem relay_complete_txSearch (L : Nat) (hL : 0 < L) (hlen : ∀ x, (H x).length = L)
+    (txsAt : Int → List Bytes) :
+    ∀ (hits : List Hit) (lc : LC),
+      (∀ h ∈ hits, 0 < h.height ∧ h.index < (txsAt h.height).length ∧
+        ∃ t, lc.at? h.height = some t ∧ t.header.dataHash = txsHash H (txsAt h.height)) →
+      ∃ lc', verifyTxSearch H lc (hits.map fun h => some
+        { hash := H ((txsAt h.height).getD h.index []), height := h.height, index := h.index,
+          tx := (txsAt h.height).getD h.index [], resultCode := 0, resultData := [],
+          proof := proofFor H (txsAt h.height) h.index }) = (.ok, lc') := by
+  intro hits
+  induction hits with
+  | nil => intro lc _; exact ⟨lc, rfl⟩
+  | cons h rest ih =>
+    intro lc hall
+    obtain ⟨hpos, hi, t, hat, hd⟩ := hall h (by simp)
+    obtain ⟨lc1, hupd⟩ := updateTo_some_complete lc _ t hat
+    obtain ⟨hchain, _, _⟩ := updateTo_ok lc lc1 _ t hupd
+    have hrest : ∀ h' ∈ rest, 0 < h'.height ∧ h'.index < (txsAt h'.height).length ∧
+        ∃ t, lc1.at? h'.height = some t ∧ t.header.dataHash = txsHash H (txsAt h'.height) := by
+      intro h' hh'
+      obtain ⟨a, b, t', c, d⟩ := hall h' (by simp [hh'])
+      exact ⟨a, b, t', by rw [at?_of_chain_eq lc lc1 hchain]; exact c, d⟩
+    obtain ⟨lc2, h2⟩ := ih lc1 hrest
+    refine ⟨lc2, ?_⟩
+    have hv := proofFor_validates H (txsAt h.height) h.index hi
+    have hk : ¬ h.height ≤ 0 := by omega
+    simp only [List.map_cons, verifyTxSearch, hk, if_false, hupd, hd, hv]
+    have hdata : (proofFor H (txsAt h.height) h.index).data = (txsAt h.height).getD h.index [] := by
+      simp [proofFor]
+    simp only [hdata, ne_eq, not_true_eq_false, or_self, if_false]
+    exact h2
+
 /-- the full statement one would want for the `Index` label of a transaction answer -/
 def TxBindsIndex : Prop :=
   ∀ (H : Bytes → Bytes) (lc lc' : LC) (reqHash : Bytes) (res : ResultTx),
@@ -444,6 +546,221 @@ theorem relay_complete_blockchainInfo (lc : LC) (minH maxH : Int) (metas : List 
       exact verifyMetas_complete H metas lc1 (hall' lc1 hchain)
 
 /-! ## ABCIQuery (value proofs through the default proof runtime) -/
+
+/-- store names and keys of an application state are non-empty (the client refuses an empty key, the
+path regexp an empty store name) -/
+def StoresNE (stores : List (Bytes × Store)) : Prop :=
+  ∀ s ∈ stores, s.1 ≠ [] ∧ ∀ kv ∈ s.2, kv.1 ≠ []
+
+/-- what `VerifyValue` establishes, for ANY number of proof operators, against a two-level
+application state: the named store exists and either holds exactly the claimed pair, or — the one
+way out — it holds under that key a value of hash length and the answer contains keyless operators
+(whose computed root was passed off as that value). -/
+theorem verifyValue_sound (L : Nat) (hL : 0 < L) (hL64 : L < 2 ^ 64) (hlen : ∀ x, (H x).length = L)
+    (ops : List ProofOp) (hne : ops ≠ []) (stores : List (Bytes × Store)) (s' k' v : Bytes)
+    (hwf : StoresWF stores) (hnem : StoresNE stores) (hsl : s'.length < 2 ^ 64) (hkl : k'.length < 2 ^ 64)
+    (hver : verifyValue H ops (appHashOf H stores) [s', k'] v = true) :
+    (∃ kvs, (s', kvs) ∈ stores ∧
+      ((k', v) ∈ kvs ∨ ∃ v'', (k', v'') ∈ kvs ∧ v''.length = L ∧ ∃ o ∈ ops, o.key = []))
+      ∨ Nonempty (Collision H) := by
+  by_cases hno : Nonempty (Collision H)
+  · right; exact hno
+  left
+  simp only [verifyValue, Bool.and_eq_true] at hver
+  obtain ⟨_, hrun⟩ := hver
+  cases hr : runOps H ops [s', k'] v with
+  | none => simp [hr] at hrun
+  | some p =>
+  obtain ⟨kfin, ofin⟩ := p
+  simp only [hr, Bool.and_eq_true, decide_eq_true_eq] at hrun
+  obtain ⟨hroot, hk0⟩ := hrun
+  subst hk0
+  -- the last operator
+  rcases List.eq_nil_or_concat ops with h0 | ⟨pre, on, hops⟩
+  · exact absurd h0 hne
+  rw [List.concat_eq_append] at hops
+  subst hops
+  rw [runOps_append] at hr
+  cases hp : runOps H pre [s', k'] v with
+  | none => simp [hp] at hr
+  | some p1 =>
+  obtain ⟨K1, a1⟩ := p1
+  simp only [hp, Option.bind_some] at hr
+  obtain ⟨hrn, hkn⟩ := runOps_single H on K1 a1 [] ofin hr
+  have hroot' : ofin = root H (appLeaves H stores) := by rw [← hroot]; rfl
+  have hm := (runOp_inclusion H L hL hlen on a1 ofin _ hrn hroot').resolve_right hno
+  simp only [appLeaves, List.mem_map] at hm
+  obtain ⟨sn, hsn, heq⟩ := hm
+  obtain ⟨hsz, hkz⟩ := hwf sn hsn
+  obtain ⟨hsne, hkne⟩ := hnem sn hsn
+  -- `on` carries a key: which one, we learn from the key path
+  have honk : on.key ≠ [] ∧ K1 = [on.key] := by
+    rcases hkn with ⟨he, hK⟩ | ⟨hne', hl, hd⟩
+    · -- keyless last operator: its leaf would be a store with an empty name
+      exfalso
+      have hlen0 : on.key.length < 2 ^ 64 := by rw [he]; simp
+      obtain ⟨e1, _⟩ := kvBytes_inj H L hL64 hlen _ _ _ _ hsz hlen0 heq
+      exact hsne (by rw [e1, he])
+    · refine ⟨hne', ?_⟩
+      obtain ⟨ys, rfl⟩ := List.getLast?_eq_some_iff.mp hl
+      simp at hd
+      rw [← hd]; rfl
+  obtain ⟨honne, hK1⟩ := honk
+  subst hK1
+  -- pre is not empty, peel its last operator
+  rcases List.eq_nil_or_concat pre with h0 | ⟨pre2, om, hpre⟩
+  · subst h0; simp [runOps] at hp
+  rw [List.concat_eq_append] at hpre
+  subst hpre
+  rw [runOps_append] at hp
+  cases hp2 : runOps H pre2 [s', k'] v with
+  | none => simp [hp2] at hp
+  | some p2 =>
+  obtain ⟨K2, a2⟩ := p2
+  simp only [hp2, Option.bind_some] at hp
+  obtain ⟨hrm, hkm⟩ := runOps_single H om K2 a2 [on.key] a1 hp
+  -- keys are consumed from the end: K2 is a prefix of [s', k']
+  have hsuf : ∀ (xs : List ProofOp) (keys : List Bytes) (arg : Bytes) (keys' : List Bytes) (out : Bytes),
+      runOps H xs keys arg = some (keys', out) → ∃ c, keys = keys' ++ c := by
+    intro xs
+    induction xs with
+    | nil => intro keys arg keys' out h; simp [runOps] at h; exact ⟨[], by rw [h.1]; simp⟩
+    | cons o rest ih =>
+      intro keys arg keys' out h
+      have happ := runOps_append H [o] rest keys arg
+      simp only [List.singleton_append] at happ
+      rw [happ] at h
+      cases h1 : runOps H [o] keys arg with
+      | none => simp [h1] at h
+      | some q =>
+        obtain ⟨kq, oq⟩ := q
+        simp only [h1, Option.bind_some] at h
+        obtain ⟨c, hc⟩ := ih kq oq keys' out h
+        obtain ⟨_, hk⟩ := runOps_single H o keys arg kq oq h1
+        rcases hk with ⟨_, e⟩ | ⟨_, hl, e⟩
+        · exact ⟨c, by rw [← e, hc]⟩
+        · obtain ⟨ys, rfl⟩ := List.getLast?_eq_some_iff.mp hl
+          simp at e
+          exact ⟨c ++ [o.key], by rw [← e, hc]; simp⟩
+  obtain ⟨c2, hc2⟩ := hsuf pre2 [s', k'] v K2 a2 hp2
+  have hs'eq : sn.1 = s' ∧ H (storeRoot H sn.2) = H a1 := by
+    have hlenk : on.key.length < 2 ^ 64 := by
+      -- on.key is s' or k'
+      rcases hkm with ⟨_, hK⟩ | ⟨_, _, hd⟩
+      · rw [← hK] at hc2
+        cases c2 with
+        | nil => simp at hc2
+        | cons a b =>
+          have := congrArg List.length hc2; simp at this
+          have hb : b = [] := List.length_eq_zero_iff.mp (by omega)
+          subst hb
+          simp at hc2; rw [← hc2.1]; exact hsl
+      · obtain ⟨ys, hys⟩ : ∃ ys, K2 = ys := ⟨K2, rfl⟩
+        have : K2.dropLast.length = 1 := by rw [← hd]; simp
+        have hK2len : K2.length = 2 := by rw [List.length_dropLast] at this; omega
+        have hc2len : c2 = [] := by
+          have := congrArg List.length hc2; simp at this
+          exact List.length_eq_zero_iff.mp (by omega)
+        subst hc2len
+        simp at hc2
+        rw [← hc2] at hd
+        simp at hd
+        rw [← hd]; exact hsl
+    exact kvBytes_inj H L hL64 hlen _ _ _ _ hsz hlenk heq
+  -- which of the two shapes for `om`
+  rcases hkm with ⟨hmk, hK⟩ | ⟨hmne, hml, hmd⟩
+  · -- om keyless: K2 = [on.key], one key left for two levels: on.key would have to be both
+    exfalso
+    rw [← hK] at hc2
+    cases c2 with
+    | nil => simp at hc2
+    | cons a b =>
+      have := congrArg List.length hc2; simp at this
+      have hb : b = [] := List.length_eq_zero_iff.mp (by omega)
+      subst hb
+      simp at hc2
+      -- on.key = s', consumed key a = k'; a1 = storeRoot; om's leaf has an empty key in the store
+      have e2 := hs'eq.2
+      by_cases hx : storeRoot H sn.2 = a1
+      · rcases runOp_inclusion H L hL hlen om a2 a1 (storeLeaves H sn.2) hrm hx.symm with hm1 | hc
+        · simp only [storeLeaves, List.mem_map] at hm1
+          obtain ⟨kv, hkv, heq1⟩ := hm1
+          have hl0 : om.key.length < 2 ^ 64 := by rw [hmk]; simp
+          obtain ⟨e3, _⟩ := kvBytes_inj H L hL64 hlen _ _ _ _ (hkz kv hkv) hl0 heq1
+          exact hkne kv hkv (by rw [e3, hmk])
+        · exact hno hc
+      · exact hno ⟨⟨_, _, hx, e2⟩⟩
+  · -- om keyed: K2 = [on.key-prefix.., om.key], so K2 = [s', k'], on.key = s', om.key = k'
+    have hK2 : K2 = [on.key, om.key] := by
+      obtain ⟨ys, rfl⟩ := List.getLast?_eq_some_iff.mp hml
+      simp at hmd
+      rw [← hmd]; rfl
+    rw [hK2] at hc2
+    have hc2nil : c2 = [] := by
+      have := congrArg List.length hc2; simp at this
+      exact List.length_eq_zero_iff.mp (by omega)
+    subst hc2nil
+    simp at hc2
+    obtain ⟨es, ek⟩ := hc2
+    have hx : storeRoot H sn.2 = a1 := by
+      by_cases hx : storeRoot H sn.2 = a1
+      · exact hx
+      · exact absurd ⟨⟨_, _, hx, hs'eq.2⟩⟩ hno
+    have hm1 := (runOp_inclusion H L hL hlen om a2 a1 (storeLeaves H sn.2) hrm hx.symm).resolve_right hno
+    simp only [storeLeaves, List.mem_map] at hm1
+    obtain ⟨kv, hkv, heq1⟩ := hm1
+    obtain ⟨e3, e4⟩ := kvBytes_inj H L hL64 hlen _ _ _ _ (hkz kv hkv) (by rw [← ek]; exact hkl) heq1
+    have hsn' : sn = (s', sn.2) := by rw [← hs'eq.1]
+    refine ⟨sn.2, by rw [← hsn']; exact hsn, ?_⟩
+    have hy : kv.2 = a2 := by
+      by_cases hy : kv.2 = a2
+      · exact hy
+      · exact absurd ⟨⟨_, _, hy, e4⟩⟩ hno
+    -- the operators before `om` are keyless (they consumed nothing); none ⇒ a2 = v
+    cases pre2 with
+    | nil =>
+      simp [runOps] at hp2
+      left
+      have : kv = (k', v) := by rw [ek, ← e3, ← hp2.2, ← hy]
+      rw [← this]; exact hkv
+    | cons o1 rest1 =>
+      right
+      have hl2 : a2.length = L := by
+        -- output of the last operator of a non-empty list
+        rcases List.eq_nil_or_concat (o1 :: rest1) with h0 | ⟨q, ol, hq⟩
+        · cases h0
+        · rw [List.concat_eq_append] at hq
+          rw [hq, runOps_append] at hp2
+          cases h5 : runOps H q [s', k'] v with
+          | none => simp [h5] at hp2
+          | some p5 =>
+            simp only [h5, Option.bind_some] at hp2
+            exact runOp_len H L hlen ol _ _ (runOps_single H ol _ _ _ _ hp2).1
+      -- some operator of the prefix is keyless: the first one, else it would have consumed a key
+      have hkeyless : ∃ o ∈ (o1 :: rest1) ++ [om] ++ [on], o.key = [] := by
+        by_cases h1 : o1.key = []
+        · exact ⟨o1, by simp, h1⟩
+        · exfalso
+          have := runOps_keyed_length H [o1] [s', k'] v
+          -- o1 keyed consumes a key, but nothing was consumed by the whole prefix
+          have happ := runOps_append H [o1] rest1 [s', k'] v
+          simp only [List.singleton_append] at happ
+          rw [happ] at hp2
+          cases h6 : runOps H [o1] [s', k'] v with
+          | none => simp [h6] at hp2
+          | some p6 =>
+            obtain ⟨k6, o6⟩ := p6
+            simp only [h6, Option.bind_some] at hp2
+            obtain ⟨_, hk6⟩ := runOps_single H o1 _ _ _ _ h6
+            rcases hk6 with ⟨he, _⟩ | ⟨_, _, hd6⟩
+            · exact h1 he
+            · simp at hd6
+              obtain ⟨c6, hc6⟩ := hsuf rest1 k6 o6 K2 a2 hp2
+              rw [hd6, hK2] at hc6
+              have := congrArg List.length hc6; simp at this; omega
+      refine ⟨kv.2, ?_, by rw [hy]; exact hl2, hkeyless⟩
+      have : kv = (k', kv.2) := by rw [ek, ← e3]
+      rw [← this]; exact hkv
 
 /-- **Soundness (ABCIQuery), partial: answers carrying exactly two proof operators** (the shape
 `DefaultMerkleKeyPathFn` is made for: value-in-store, store-in-app). A relayed answer has code 0, a
@@ -909,6 +1226,16 @@ theorem relay_binds_request_abci_fails : ¬ ABCIBindsRequest := by
     (by decide) (by decide) (by decide) (by decide) (by decide) (by decide) hdec
   have := (hall Wit.H0 _ lc' _ [1, 2, 3] 7 _ hacc).1
   revert this
+  decide
+
+/-- every route the proxy registers is classified, and the verified / light-client ones are exactly
+the response kinds the theorems above cover -/
+theorem routes_classified :
+    (∀ n ∈ routeNames, (routeClass n).isSome) ∧
+    routeNames.filter (fun n => routeClass n = some .verified) =
+      ["abci_query", "block", "block_by_hash", "block_results", "blockchain", "consensus_params", "tx",
+       "tx_search"] ∧
+    routeNames.filter (fun n => routeClass n = some .lightClient) = ["commit", "validators"] := by
   decide
 
 /-! ## Latest-height requests (no height given) -/
